@@ -33,7 +33,7 @@ SHARDS = {"quick": 12, "thorough": 16}
 BUDGET_S = {"quick": 55, "thorough": 800}
 
 ROOTS = {"post": ("Post", "post"), "author": ("Author", "author"), "comment": ("Comment", "comment"),
-         "tag": ("Tag", "tag"), "country": ("Country", "country")}
+         "tag": ("Tag", "tag"), "country": ("Country", "country"), "region": ("Region", "region")}
 
 
 def run_django(entity, text):
@@ -158,7 +158,7 @@ def run(ctx):
                 break
             r = rng.random()
             entity = ("post" if r < 0.45 else "author" if r < 0.65 else "comment" if r < 0.85
-                      else "tag" if r < 0.93 else "country")
+                      else "tag" if r < 0.92 else "country" if r < 0.97 else "region")
             lane = "judged"
             opts = {}
             if i % 10 == 9:
